@@ -1,6 +1,7 @@
 pub mod closures;
 pub mod common;
 pub mod derive;
+pub mod determinism;
 pub mod evalorder;
 pub mod generics;
 pub mod illtyped;
@@ -15,6 +16,7 @@ pub mod query;
 pub mod schedules;
 pub mod scoping;
 pub mod sepcomp;
+pub mod staleness;
 pub mod text;
 
 use crate::drive::Family;
@@ -44,6 +46,8 @@ pub fn all() -> Vec<Box<dyn Family>> {
         Box::new(illtyped::IllTyped),
         Box::new(sepcomp::SepComp),
         Box::new(isolation::Isolation),
+        Box::new(determinism::Determinism),
+        Box::new(staleness::Staleness),
     ]
 }
 
